@@ -96,7 +96,15 @@ def get_flags() -> dict:
     return {k: getattr(LX, k) for k in FLAGS}
 
 
+def _ensure_flags():
+    """every flag the rules read exists (a refactoring may move an initialisation into parse_data)"""
+    for k in FLAGS:
+        if not hasattr(LX, k):
+            setattr(LX, k, 0 if k in ("lp_open", "lt_open") else False)
+
+
 def lex_prefix(text: str) -> dict:
+    _ensure_flags()
     PARSER.set_default_flags_in_lexer()
     LX.input(text)
     while LX.token():
